@@ -8,7 +8,7 @@ namespace WebClientLemmas
 open WebClient WebClient.Fixed
 open WebServer (BodyEv Out flat notPending)
 open Spec.GrpcWeb (WellFramed rawFrame flagOk frameBytes framesBytes lineOfSp trailersBlock trailersFrame
-  lowerNameOk plainValueOk fieldValueOk tchar isUpper frameStructure frameStructureAux)
+  lowerNameOk plainValueOk fieldValueOk tchar isUpper frameStructure frameStructureAux encItems)
 open TMap (Pair)
 
 /-! ### terminal frames -/
@@ -1069,5 +1069,57 @@ theorem wellFramed_iff (b : Bytes) : WellFramed b ↔ (frameStructure b).isSome 
 
 instance (b : Bytes) : Decidable (WellFramed b) :=
   decidable_of_iff _ (wellFramed_iff b).symm
+
+/-! ### unique readability: a well-framed prefix of a well-framed body ends at a frame boundary -/
+
+theorem u32be_inj (n m : Nat) (hn : n < 4294967296) (hm : m < 4294967296) (h : u32be n = u32be m) :
+    n = m := by
+  have h1 := readU32_u32be n hn
+  have h2 := readU32_u32be m hm
+  simp only [u32be, List.cons.injEq, and_true] at h
+  obtain ⟨e1, e2, e3, e4⟩ := h
+  rw [e1, e2, e3, e4] at h1
+  rw [← h1, h2]
+
+theorem rawFrame_append_inj (fl fl' : UInt8) (p p' z z' : Bytes) (hp : p.length < 4294967296)
+    (hp' : p'.length < 4294967296) (h : rawFrame fl' p' ++ z' = rawFrame fl p ++ z) :
+    fl' = fl ∧ p' = p ∧ z' = z := by
+  simp only [rawFrame, List.cons_append, List.cons.injEq, List.append_assoc] at h
+  obtain ⟨hfl, h⟩ := h
+  have hlen4 : (u32be p'.length).length = (u32be p.length).length := rfl
+  obtain ⟨hu, h⟩ := List.append_inj h hlen4
+  have hl := u32be_inj _ _ hp' hp hu
+  obtain ⟨hpp, hz⟩ := List.append_inj h hl
+  exact ⟨hfl, hpp, hz⟩
+
+theorem wf_prefix_boundary : ∀ (items : List (UInt8 × Bytes)),
+    (∀ i ∈ items, flagOk i.1 ∧ i.2.length < 4294967296) →
+    ∀ (X Y : Bytes), X ++ Y = encItems items → WellFramed X →
+    ∃ j, X = encItems (items.take j) := by
+  intro items
+  induction items with
+  | nil =>
+    intro _ X Y h _
+    simp only [encItems, List.flatMap_nil, List.append_eq_nil_iff] at h
+    exact ⟨0, by simp [encItems, h.1]⟩
+  | cons it items ih =>
+    intro hi X Y h hw
+    obtain ⟨its', hi', hX⟩ := hw
+    cases its' with
+    | nil => exact ⟨0, by simpa [encItems] using hX⟩
+    | cons it' r' =>
+      obtain ⟨fl, p⟩ := it
+      obtain ⟨fl', p'⟩ := it'
+      have hp := (hi (fl, p) (by simp)).2
+      have hp' := (hi' (fl', p') (by simp)).2
+      have hX' : X = rawFrame fl' p' ++ encItems r' := by simpa [encItems] using hX
+      have h' : rawFrame fl' p' ++ (encItems r' ++ Y) = rawFrame fl p ++ encItems items := by
+        rw [← List.append_assoc, ← hX', h]; simp [encItems]
+      obtain ⟨hfl, hpp, hz⟩ := rawFrame_append_inj fl fl' p p' _ _ hp hp' h'
+      have hwr : WellFramed (encItems r') := ⟨r', fun i hi'' => hi' i (by simp [hi'']), rfl⟩
+      obtain ⟨j, hj⟩ := ih (fun i hi'' => hi i (by simp [hi''])) (encItems r') Y hz hwr
+      refine ⟨j + 1, ?_⟩
+      rw [hX', hj, hfl, hpp]
+      simp [encItems]
 
 end WebClientLemmas
